@@ -22,16 +22,19 @@ from pathlib import Path
 
 from harness import common as C
 from harness import pyast_wire as W
+from harness import c11_prompt as Q
+from harness import c11_oracles as O
 from harness.props import c03 as L
 
 META = {
     "id": "C11",
-    "technique": "Coq proof (effect-instrumented model of _eval_const: whitelist of primitives by induction over expressions, reject-before-evaluate for unsupported nodes, exception kinds at the call sites, size bound of folded integers per operator and per expression) + extracted-model correspondence (result and primitive trace vs the real _eval_const under recording wrappers) + audit-hook / canary / exception-kind observation of the real parse()+emit() on hostile scripts, real Python sources and noise (support only)",
-    "level_text": "Theorems C11_* (coq/Props/C11.v) are proved for all expressions and environments about the Gallina model of _eval_const and its call sites (cast / operator tables regenerated from parser.py on every run): whitelist of primitive operations, no evaluation below an unsupported node, error kinds, size of the folded integers (at most max(_MAX_CONST_BITS, widest operand + 1) bits per operator application, linear in the input for whole arithmetic expressions; 2**2**n is refused beyond the bound) and a linear number of operations. The clause about the Python process (no file, process, network or environment access; only ValueError/SyntaxError; termination) for arbitrary texts is outside the technique: it is observed with sys.addaudithook, canary files, exception kinds and a 30 s limit on generated hostile scripts, and labelled as support.",
+    "technique": "Coq proof (regenerated inventory of every regular expression of the transpiler, lowered from CPython's own parse: flat => polynomially many backtracking paths on every text, nested quantifier => exponentially many; process model of folded list objects across parse() calls: stateless without a module-level memo, refuted with one, inventory of module-level state shows none; effect-instrumented model of _eval_const: whitelist of primitives by induction over expressions, reject-before-evaluate for unsupported nodes, exception kinds at the call sites, size bound of folded integers per operator and per expression) + extracted-model correspondence (result and primitive trace vs the real _eval_const under recording wrappers) + regex model vs re.fullmatch, session model vs firmware text + pump strings derived from every repeat of every pattern in every line / argument position, generic long runs, scale families by doubling (promptness relative to the stream's median, confirmed in a new process, growth series in the replay), sessions of scripts sharing literal texts vs the same script alone + audit-hook / canary / exception-kind observation of the real parse()+emit() on hostile scripts, real Python sources and noise (support only)",
+    "level_text": "Theorems C11_* (coq/Props/C11.v) are proved for all expressions and environments about the Gallina model of _eval_const and its call sites (cast / operator tables regenerated from parser.py on every run): whitelist of primitive operations, no evaluation below an unsupported node, error kinds, size of the folded integers (at most max(_MAX_CONST_BITS, widest operand + 1) bits per operator application, linear in the input for whole arithmetic expressions; 2**2**n is refused beyond the bound) and a linear number of operations; C11_regex_table_flat / _polynomial: every regular expression of the current source (Gen/Regexes.v, regenerated) is flat, hence has at most (length + 2)^size backtracking paths on every text, while the nested-quantifier shape has at least 2^n (C11_nested_quantifier_exponential, C11_port_fragment_exponential); C11_fold_session_stateless(_current_source), C11_parse_leaves_module_store, C11_fold_memo_refuted, C11_no_mutated_module_state: folded list objects cannot leak from one parse() to the next because no module-level object is mutated or handed out (Gen/SetSites.v). Open finding F-C11-blank-run-cubic: flat is polynomial, not linear - three adjacent blank-accepting runs make long white-space runs cubic. The clause about the Python process (no file, process, network or environment access; only ValueError/SyntaxError; termination) for arbitrary texts is outside the technique: it is observed with sys.addaudithook, canary files, exception kinds and a 30 s limit on generated hostile scripts, and labelled as support.",
     "level_note": "Trusted: Coq kernel, translator harness/gen/safecasts.py, extraction, OCaml driver; for the observed part CPython's audit events (open, exec, import, os.*, subprocess.*, socket.*) as the definition of 'access'. The theorems are about the model; the correspondence bounds its distance from parser.py.",
     "design_ref": "DESIGN.md section 4 C11",
 }
 
+WIRE = ["C11", "C11x"]      # C11W: the evaluator wire shared with C03; C11xW: regular expressions and sessions
 CLEAN = (None, "ValueError", "SyntaxError")
 OPNAME = {0: "add", 1: "sub", 2: "mul", 3: "truediv", 4: "floordiv", 5: "mod", 6: "pow", 7: "and_", 8: "or_", 9: "xor",
           10: "lshift", 11: "rshift"}
@@ -487,28 +490,66 @@ def run(ctx: C.Ctx):
         if r["exc"] is None and kind == "hostile":
             distinct.add(text)
 
-    # ---------------- 3. known findings: none is listed as open (the three of this property are kind=fixed and were
-    # replayed in step 0); an entry of kind=finding added later must get its replay here
+    # ---------------- 3. 'terminates promptly': the regular expressions of the inventory (model vs re; pump strings), generic
+    # long runs in every frame, scale families measured by doubling
+    n_extra = 0
+    try:
+        inv = Q.load_inventory()
+    except Q.RX.Die as e:
+        inv = None
+        ctx.disagree("the regular-expression inventory could not be rebuilt from the current source (fail-closed)", str(e), None, None)
+    import time as _t
+    t0 = _t.time()
+    if inv is not None:
+        n_extra += O.regex_correspondence(ctx, stats, inv, rng, 25 if thorough else 8)
+        stats["seconds:regex-correspondence"] = round(_t.time() - t0, 1)
+        t0 = _t.time()
+        n_extra += O.prompt_streams(ctx, stats, inv, thorough)
+        stats["seconds:pump-streams"] = round(_t.time() - t0, 1)
+    t0 = _t.time()
+    n_extra += O.scale_stream(ctx, stats, thorough)
+    stats["seconds:scale-stream"] = round(_t.time() - t0, 1)
+    t0 = _t.time()
+
+    # ---------------- 4. 'never mutates its input-independent state': sessions of scripts that share literal texts
+    n_extra += O.session_stream(ctx, stats, rng, thorough)
+    stats["seconds:session-stream"] = round(_t.time() - t0, 1)
+
+    # ---------------- 5. known findings: every open one is replayed here (the fixed ones were replayed in step 0)
     for f in ctx.findings:
-        if f.get("kind") != "fixed":
-            ctx.disagree("known_findings lists an open finding this check has no replay for", f.get("id"), None, None)
+        if f.get("kind") == "fixed":
+            continue
+        if f.get("id") == "F-C11-blank-run-cubic":
+            rows = []
+            for n in (10, 400, 800, 1600):
+                r = O.alone(HEADER + "led3 = Led(" + " " * n + ")!\n", 60)
+                rows.append((n, 60.0 if r["exc"] == "Timeout" else r["wall"]))
+            stats["known:F-C11-blank-run-cubic:seconds for 10/400/800/1600 blanks"] = str([w for _, w in rows])
+            t10, t400, t800, t1600 = (w for _, w in rows)
+            # still fails = the 1.6 kB line needs more than 200 x the short one and more than 24 x the 400-blank one (two doublings:
+            # quadratic growth gives 16, cubic 64)
+            if t1600 > 200 * max(t10, 0.001) and t1600 > 0.5 and t1600 > 24 * max(t400, 0.001):
+                ctx.known(f"F-C11-blank-run-cubic: `led3 = Led(<n blanks>)!` is transpiled in {t400} s, {t800} s, {t1600} s for n = 400, 800, 1600 (x{round(t1600 / max(t800, 1e-3), 1)} per doubling: cubic; {t10} s for 10 blanks)")
+            continue
+        ctx.disagree("known_findings lists an open finding this check has no replay for", f.get("id"), None, None)
     shutil.rmtree(cdir, ignore_errors=True)
 
     ctx.coverage.update({
-        "evaluations": len(cases) + len(scripts),
+        "evaluations": len(cases) + len(scripts) + n_extra,
         "distinct_nontrivial": len(distinct),
-        "rule": "0: the witnesses of the repaired findings. 1 (proof tie): the C03 expression stream (boundary expressions x environments incl. the values around the size bound + seeded random expressions) plus hostile expression forms, plus towers / giant shifts / wide products and seeded random integer expressions with exponents and shift counts around and beyond the size bound (size oracle max(bound, widest leaf) + nodes on every call-free result), each through the extracted instrumented model (result, primitive trace) and the real _eval_const under recording wrappers (operator module alias, _SAFE_CASTS values, max/min/abs in the parser's namespace) with sys.setprofile / sys.addaudithook; non-trivial = distinct (expression, environment) on which the real evaluator performed at least one primitive operation. 2 (observed, support): hostile expression forms (file / process / import / eval / attribute / lambda / comprehension / walrus / f-string payloads writing a canary file) in every argument position of the property's quantifier (pins, delays, conditions, loop bounds, list items, f-strings, decorators, defaults, device constructor keywords, expression statements), generated expressions in the same positions, real Python sources (the project's own files and standard-library modules), byte noise / shuffled / truncated / corrupted scripts, plus the formerly excluded regions (infinity / NaN / beyond-float-range values x every position incl. all int()/float() resolver sites, towers-shifts-products x positions, multi-line squaring chains, expressions 150..20000 levels deep x positions) - each through the real parse()+emit() with audit hook, canary check, exception kind and a 30 s limit; non-trivial = distinct hostile script that was accepted (firmware produced) - the ones where evaluating the payload would have been possible.",
+        "rule": "0: the witnesses of the repaired findings. 1 (proof tie): the C03 expression stream (boundary expressions x environments incl. the values around the size bound + seeded random expressions) plus hostile expression forms, plus towers / giant shifts / wide products and seeded random integer expressions with exponents and shift counts around and beyond the size bound (size oracle max(bound, widest leaf) + nodes on every call-free result), each through the extracted instrumented model (result, primitive trace) and the real _eval_const under recording wrappers (operator module alias, _SAFE_CASTS values, max/min/abs in the parser's namespace) with sys.setprofile / sys.addaudithook; non-trivial = distinct (expression, environment) on which the real evaluator performed at least one primitive operation. 2 (observed, support): hostile expression forms (file / process / import / eval / attribute / lambda / comprehension / walrus / f-string payloads writing a canary file) in every argument position of the property's quantifier (pins, delays, conditions, loop bounds, list items, f-strings, decorators, defaults, device constructor keywords, expression statements), generated expressions in the same positions, real Python sources (the project's own files and standard-library modules), byte noise / shuffled / truncated / corrupted scripts, plus the formerly excluded regions (infinity / NaN / beyond-float-range values x every position incl. all int()/float() resolver sites, towers-shifts-products x positions, multi-line squaring chains, expressions 150..20000 levels deep x positions) - each through the real parse()+emit() with audit hook, canary check, exception kind and a 30 s limit; non-trivial = distinct hostile script that was accepted (firmware produced) - the ones where evaluating the payload would have been possible. 3 (promptness): the regenerated regex inventory - (a) model vs re.fullmatch on the minimal text of each pattern, its pumps and seeded edits of them; (b) pump scripts: for every unbounded repeat of every pattern x up to three feeds (characters of its set / the group's text / the inner set of a nested repeat) x continuations (the rest of the pattern, cut after the run, + one of ! ( [0] ' + 1' \\x01) at 28 characters (every place a line can stand: top level, while / if / else / for / def / try bodies, right-hand side; argument positions incl. quoted pin strings for the patterns applied to arguments) and at 1200 (quick) / 400, 1500, 6000 (thorough) characters, white-space runs cut to the guard; (c) 28 run alphabets x 41 statement frames (target(<run>()), h = target(<run>[0]), names, conditions, decorators, imports, except clauses ...) at 40 and 1500 characters; (d) 23 scale families (many lines / long lines / CRLF) at 250 .. 2000 (8000) by doubling. A script is slow when it needs more than max(5 s, 200 x the median of its stream) twice, the second time alone in a new process; the replay carries the series over growing runs. 4 (state): sessions - per literal text (lists with duplicates, nested, computed, tuples, strings, numbers) reader scripts (len, flash_pattern, glyph, index, loop bound, f-string) and mutator scripts (append / remove / += / item store / rebinding / aliases / inside if-while-for-def, under another variable name), transpiled in ONE process as readers, mutators, readers, shuffled mutators, mutators again, readers - every output must equal the script's output alone in a new process (sha256 / exception kind); on a difference every earlier script is tried as single predecessor: the replay is the two-script session; module-level objects of the three modules are digested before / after every parse (a change breaks the tie of Lang/FoldSession.v); random sessions of the model fragment through the extracted model vs the folded values read off the firmware.",
         "samples": [{"expr": hostile[0][0]}, {"script": scripts[0][1][len(HEADER):]}, {"script": scripts[len(pairs) // 2][1][len(HEADER):]}],
         "distribution": dict(sorted(stats.items())),
         "max_wall_s_per_script": max(walls) if walls else 0,
-        "guard": "none - no finding of this property is open: the regions the three repaired findings used to exclude are generated (towers / giant shifts / wide products as expressions, in every argument position and as multi-line chains; infinities, NaN and integers beyond the float range in every numeric argument; expressions of 150 .. 20000 levels); C11_fold_bits_bounded carries the modelling guard arith_only (no calls), the implementation-side size oracle covers every call-free expression",
+        "guard": "F-C11-blank-run-cubic: no generated line holds a run of more than 100 white-space characters (longer white-space pumps are cut to 100). The regions the three repaired findings used to exclude are generated (towers / giant shifts / wide products as expressions, in every argument position and as multi-line chains; infinities, NaN and integers beyond the float range in every numeric argument; expressions of 150 .. 20000 levels); C11_fold_bits_bounded carries the modelling guard arith_only (no calls), the implementation-side size oracle covers every call-free expression",
         "fixed_findings_replayed": sorted(FIXED_WITNESS),
         "regressed": sorted(regressed),
         "max_const_bits": max_bits,
-        "unmodelled": ["the Python process executing parser.py / emitter.py (regex matching, string building): observed by audit hook + canaries + exception kinds, support only - not proved",
+        "unmodelled": ["the Python process executing parser.py / emitter.py (string building, the hand-written scanners): observed by audit hook + canaries + exception kinds + timing, support only - not proved; of the regex engine only the number of backtracking paths of the textbook search is modelled (sets restricted to ASCII + a flag, anchors and the one-character look-behind as empty matches) - the engine's own optimisations, its cost per path and non-regex loops are measured (pumps, scale families), not proved",
+                       "[paths] counts the successes of a (sub)pattern; the theorem bounds every flat sub-pattern, the total work of a failing match is a sum of such counts over prefixes (not stated as one theorem)",
                        "CPython's recursion limit and int->str digit limit (a RecursionError is turned into ValueError by parse(): observed on the deep stream, not modelled)", "IEEE infinities / NaN and the binary64 range (the model's floats are exact rationals): int(inf) / float(<huge int>) at the folding call sites fall back to the run-time expression - observed on the infinity stream in every numeric position, not modelled", "growth of folded strings across lines (s = s + s repeated: 2^n characters after n lines; ends in a caught MemoryError and the run-time expression, about 10 s under an 8 GB limit) - outside the three repaired findings, not generated", "target() reading the file (C12)", "ast.literal_eval fallbacks (flash_pattern, ultrasonic model): exercised by the hostile scripts, not modelled",
                        "environment reads (os.environ) have no audit event: only the canary / builtins profile would show them inside _eval_const"],
-        "trusted_base": C.COMMON_TRUSTED + ["harness/gen/safecasts.py (operator / cast / safe-name tables of parser.py)",
+        "trusted_base": C.COMMON_TRUSTED + ["harness/gen/safecasts.py (operator / cast / safe-name tables of parser.py)", "harness/gen/regexes.py (walks the ast of parser.py / emitter.py / ast.py / __init__.py / pio.py for re.* calls, evaluates the pattern expressions, cross-checks with the compiled module-level objects, lowers CPython's re._parser parse; fail-closed)", "harness/gen/setsites.py (module-level state inventory, shared with C10)", "wall-clock time of the implementation runner as the observation of 'promptly' (relative to the median of the same stream, confirmed in a second process)",
                                             "CPython audit events and sys.setprofile c_call events as the observation of 'access' and 'call' (support part)"],
         "support_only": "part 2 (process-level behaviour on arbitrary texts) is observation, not proof",
     })
@@ -518,5 +559,23 @@ def run(ctx: C.Ctx):
 
 
 def replay(data):
+    case = data.get("case") or {}
+    kind = case.get("kind") if isinstance(case, dict) else None
+    if kind == "session":
+        scripts = case["scripts in one process"]
+        alone = C.run_impl("c11_impl.py", {"cases": [["session", [scripts[-1]], False]], "limit": 30})[0][0]
+        together = C.run_impl("c11_impl.py", {"cases": [["session", scripts, False]], "limit": 30})[0]
+        print("last script alone:", {k: alone[k] for k in ("sha", "exc")})
+        print("last script after the others, same process:", {k: together[-1][k] for k in ("sha", "exc")}, "module-level objects changed:", [r["changed"] for r in together])
+        bad = (alone["sha"], alone["exc"]) != (together[-1]["sha"], together[-1]["exc"])
+        print("still failing" if bad else "no longer failing")
+        return 1 if bad else 0
+    if kind and (kind.startswith(("regex-pump", "generic-run")) or kind == "scale") and "text" in case and not case["text"].endswith("...<cut>"):
+        r = O.alone(case["text"], 30)
+        ref = O.alone(Q.PUMP_HEADER + "led.on()\n", 30)
+        print("real parse()+emit():", r, "- a one-line reference script:", ref)
+        bad = r["exc"] == "Timeout" or r["wall"] > max(O.SLOW_ABS, O.SLOW_REL * ref["wall"]) or r["exc"] not in CLEAN or bool(r["audit"])
+        print("still failing" if bad else "no longer failing")
+        return 1 if bad else 0
     from harness.props.c03_replay import replay_c11
     return replay_c11(data)
